@@ -23,6 +23,8 @@ def node(spec):
     h = HOOK[0]
     if h:
         h("enter", nid)
+        for _ in range(spec.get("work", 0)):   # a body that takes a while (scheduler yield points under the harness)
+            h("work", nid)
     t = _task("node")
     kids = spec.get("children", [])
     mode = spec.get("mode", "leaf")
@@ -56,3 +58,13 @@ def flaky_leaf(spec):
     if EXEC_COUNT[nid] <= spec.get("fails", 1):
         raise RetryError(f"attempt {EXEC_COUNT[nid]}")
     return spec["v"]
+
+
+def abnormal(spec):
+    """a body whose thread ends abnormally (SystemExit is not an Exception): the invocation is left RUNNING by its thread"""
+    nid = spec["id"]
+    EXEC_COUNT[nid] = EXEC_COUNT.get(nid, 0) + 1
+    h = HOOK[0]
+    if h:
+        h("enter", nid)
+    raise SystemExit(3)
